@@ -35,7 +35,9 @@ CONSTANTS
   FracDT,       \* numerator of SlashFractionDowntime
   Fee,          \* required fee of every pos message (base fee * multiplier)
   GenBal,       \* <<b1..bN>> genesis balances
-  GenVals,      \* set of [v, tokens] genesis validators (all staked, unjailed)
+  GenVals,      \* set of [v, tokens, status, jailed, uat] genesis validators (staked or unstaking)
+  GenExported,  \* BOOLEAN: the genesis is an export of a running chain (carries previous-state powers)
+  GenPrev,      \* <<p1..pN>> previous-state power per validator in an exported genesis (-1 = none)
   DaoTokens,    \* DAO tokens minted at genesis
   Dev,          \* set of named deviations of the code from the intended design
   \* environment bounds
@@ -433,22 +435,39 @@ EndBlock(s) ==
 
 InitChain(s) ==
   LET gv == {g.v : g \in GenVals}
-      tok(v) == (CHOOSE g \in GenVals : g.v = v).tokens
-      staked == SumOver(gv, tok)
-      bal0 == [a \in Accts |-> IF a \in Users THEN GenBal[a] ELSE IF a = POOL THEN staked
+      G(v) == CHOOSE g \in GenVals : g.v = v
+      tok(v) == G(v).tokens
+      \* pos/genesis.go funds the pool with the stake of the genesis validators it counts
+      counted == {v \in gv : G(v).status = Staked \/ ("GenesisPoolStakedOnly" \notin Dev /\ G(v).status = Unstaking)}
+      pool == SumOver(counted, tok)
+      \* a consistent genesis states the supply: balances + all stake that must be backed
+      backed == SumOver(gv, tok)
+      bal0 == [a \in Accts |-> IF a \in Users THEN GenBal[a] ELSE IF a = POOL THEN pool
                                ELSE IF a = DAO THEN DaoTokens ELSE 0]
-      val0 == [v \in Users |-> IF v \in gv THEN [ex |-> TRUE, status |-> Staked, jailed |-> FALSE, tokens |-> tok(v), uat |-> -1]
+      val0 == [v \in Users |-> IF v \in gv THEN [ex |-> TRUE, status |-> G(v).status, jailed |-> G(v).jailed, tokens |-> tok(v), uat |-> G(v).uat]
                                ELSE NoVal]
       s1 == [s EXCEPT !.phase = "committed", !.bal = bal0,
-                      !.supply = SumOver(Accts, LAMBDA a : bal0[a]),
+                      !.supply = SumOver(Users, LAMBDA a : GenBal[a]) + backed + DaoTokens,
                       !.val = val0,
-                      !.pidx = {<< Power(tok(v)), v >> : v \in gv},
+                      !.pidx = {<< Power(tok(v)), v >> : v \in {u \in gv : G(u).status = Staked /\ ~G(u).jailed}},
+                      !.uq = {[t |-> t, ids |-> LET RECURSIVE ord(_)
+                                                   ord(S) == IF S = {} THEN << >> ELSE LET m == CHOOSE x \in S : \A y \in S : x <= y IN << m >> \o ord(S \ {m})
+                                               IN ord({v \in gv : G(v).status = Unstaking /\ G(v).uat = t})] :
+                              t \in {G(v).uat : v \in {u \in gv : G(u).status = Unstaking}}},
                       !.sinfo = [v \in Users |-> IF v \in gv THEN [NoInfo EXCEPT !.ex = TRUE, !.start = 0] ELSE NoInfo],
                       !.pkrel = gv, !.minted = DaoTokens,
                       !.proposer = 0]   \* the default genesis sets an empty previous proposer
-      s2 == UpdateTendermintValidators(s1)
-      set == ApplyUpd(s.vs[3], s2.lastUpd)
-  IN IF s2.halt # "" THEN s2 ELSE [s2 EXCEPT !.vs = << s.vs[1], set, set >>]
+  IN IF GenExported
+     THEN \* exported genesis: previous-state powers are taken from the file and returned as the updates
+          LET pv == {v \in Users : GenPrev[v] # -1}
+              upd == {<< v, GenPrev[v] >> : v \in pv}
+              set == ApplyUpd(s.vs[3], upd)
+          IN IF \E v \in pv : v \notin gv THEN [s1 EXCEPT !.halt = "genesis-prev-power-unknown-validator"]
+             ELSE [s1 EXCEPT !.prev = GenPrev, !.lastUpd = upd, !.vs = << s.vs[1], set, set >>,
+                             !.prevTotal = SumOver(pv, LAMBDA v : GenPrev[v])]
+     ELSE LET s2 == UpdateTendermintValidators(s1)
+              set == ApplyUpd(s.vs[3], s2.lastUpd)
+          IN IF s2.halt # "" THEN s2 ELSE [s2 EXCEPT !.vs = << s.vs[1], set, set >>]
 
 Commit(s) == [s EXCEPT !.phase = "committed", !.nro = 0]
 
